@@ -5,6 +5,7 @@ configured, unknown and hostile look-up strings; plus what a broker on that stor
 import itertools
 import json
 import os
+import sys
 import random
 import tempfile
 
@@ -288,6 +289,65 @@ def run(tier, seed, drv):
                     a = SB.get_authenticator(arg)
                 if not isinstance(a, cls):
                     res.violation('C17', 'wiring', 'get_authenticator(%r) built %r' % (arg, type(a)), {'arg': arg})
+            # ---------------- scripts.broker.main(): which stores the command line puts into the stack, in which order.
+            # The working directory holds a LEFT-OVER ./sqlite.db (identities `legacy` and `w`); the environment
+            # configures `w` with another secret.  `--auth env` must not consult the left-over file at all.
+            import sqlite3 as _sq
+            import types as _types
+            with contextlib.redirect_stdout(io.StringIO()):
+                left = SQL.Authenticator('sqlite.db')
+            for ident_, sec_ in (('legacy', 'old'), ('w', 'from-sqlite')):
+                left.sql.execute('insert into authkeys (owner, ident, secret, pubchans, subchans) values (?,?,?,?,?)',
+                                 ('o', ident_, sec_, '["c1"]', '["c1"]'))
+            left.sql.commit()
+            left.sql.close()
+            captured = {}
+
+            class _Srv(object):
+                def __init__(self, auth=None, exporter=None, name=None, **kw):
+                    captured['auth'] = auth
+
+                def add_endpoint_legacy(self, *a, **k):
+                    pass
+
+                def add_endpoint_str(self, *a, **k):
+                    pass
+
+                async def serve_forever(self):
+                    return None
+            saved = (SB.Server, SB.aiorun, sys.argv)
+            envkeys = {'HPFEEDS_W_SECRET': 'from-env', 'HPFEEDS_W_OWNER': 'o', 'HPFEEDS_W_PUBCHANS': 'c2', 'HPFEEDS_W_SUBCHANS': 'c2'}
+            os.environ.update(envkeys)
+            try:
+                SB.Server = _Srv
+                SB.aiorun = _types.SimpleNamespace(run=lambda coro: coro.close())
+                for argv, expect in (
+                        (['--auth', 'env'], {'legacy': None, 'w': 'from-env'}),
+                        ([], {'legacy': 'old', 'w': 'from-sqlite'}),
+                        (['--auth', 'env', '--auth', 'sqlite'], {'legacy': 'old', 'w': 'from-env'}),
+                        (['--auth', 'sqlite', '--auth', 'env'], {'legacy': 'old', 'w': 'from-sqlite'})):
+                    res.evaluations += 1
+                    sys.argv = ['hpfeeds-broker'] + argv
+                    captured.clear()
+                    try:
+                        with contextlib.redirect_stdout(io.StringIO()):
+                            SB.main()
+                    except SystemExit:
+                        pass
+                    a = captured.get('auth')
+                    if a is None:
+                        res.violation('C17', 'wiring-main', 'scripts.broker.main() with %r built no broker' % (argv,), {'argv': argv})
+                        continue
+                    for ident_, want in expect.items():
+                        got = a.get_authkey(ident_)
+                        gs = got.get('secret') if got else None
+                        if gs != want:
+                            res.violation('C17', 'wiring-main', 'broker started with %r (a left-over ./sqlite.db in the working directory): identity %r is answered with secret %r, expected %r - the stack does not consist of exactly the stores named on the command line, in that order' % (argv, ident_, gs, want), {'argv': argv, 'lookup': ident_})
+                    res.note('wiring.main')
+            finally:
+                SB.Server, SB.aiorun, sys.argv = saved
+                for k_ in envkeys:
+                    os.environ.pop(k_, None)
         finally:
             os.chdir(cwd)
     finally:
